@@ -14,7 +14,7 @@ EXTENDS Naturals, Sequences, FiniteSets, TLC, Json
 CONSTANTS Targets, Tsizes, DataVals, Builders, MaxLinks,
           NNames,   \* how many of <<"", "a", "b">> are used
           Lean,     \* TRUE: reduced call alphabet (deeper exhaustive enumeration)
-          D, E      \* BFS: D = E = depth;  -simulate: E = behaviour length, D large
+          D, E      \* BFS: D = E = depth (script mode: D = bound on the script length)
 VARIABLES links, dirty, data, builder, encCache, cidCache, ins, out,
           alinks, adirty, adata, abuilder, aencCache, acidCache, ains, aout,
           hist
@@ -45,7 +45,7 @@ Keep(a) == ~Lean \/ /\ a.op \in LeanOps
                     /\ a.op = "SetLinks" => Len(a.ls) # 2
 GActs == {a \in I!Acts : Keep(a)}
 
-InitData == IF D = E THEN {"nil"} ELSE DataVals       \* BFS: NodeWithData(nil); simulation: any
+InitData == {"nil"}                                   \* BFS starts from &ProtoNode{}
 \* hist[1] is the synthetic constructor step (NodeWithData(d) / &ProtoNode{})
 NewStep(d) == [a |-> [op |-> "New", d |-> d], out |-> I!Res("New", "", 0),
                st |-> [l |-> <<>>, d |-> d, b |-> "v0"], alt |-> <<>>]
@@ -63,14 +63,4 @@ GSpec == GInit /\ [][GNext]_<<ivars, avars, hist>>
 
 Emit == Len(hist) # E + 1 \/ PrintT(<<"BEHAVIOUR", ToJson(hist)>>)
 
-\* -simulate: print one behaviour per E steps from an action (not from an invariant), then restart
-Flush == /\ Len(hist) = E + 1
-         /\ PrintT(<<"BEHAVIOUR", ToJson(hist)>>)
-         /\ links' = <<>> /\ dirty' = FALSE /\ data' \in DataVals /\ builder' = "unset"
-         /\ encCache' = <<>> /\ cidCache' = <<>> /\ ins' = <<>> /\ out' = I!Res("New", "", 0)
-         /\ alinks' = <<>> /\ adirty' = FALSE /\ adata' = data' /\ abuilder' = "unset"
-         /\ aencCache' = <<>> /\ acidCache' = <<>> /\ ains' = <<>> /\ aout' = I!Res("New", "", 0)
-         /\ hist' = <<NewStep(data')>>
-GNextSim == IF Len(hist) = E + 1 THEN Flush ELSE GNext
-GSpecSim == GInit /\ [][GNextSim]_<<ivars, avars, hist>>
 =============================================================================
